@@ -11,6 +11,9 @@ def run(ctx):
     ctx.prove()
     h = ctx.build_harness("h_ops")
     ctx.pipe([h, "smooth", "60" if ctx.tier == "quick" else "1200", "13", "16"], "smooth", label="smoother-sweeps")
+    # code-level model (GMGModel/SmootherCode.lean): stored line matrices, temp = rhs - A_sc^ortho x, one sweep
+    hc = ctx.build_harness("h_smcode")
+    ctx.pipe([hc, "smooth", "30" if ctx.tier == "quick" else "400", "13", "16"], "smcode", label="smoother-code-level")
     if ctx.tier == "thorough":
         ctx.pipe([h, "smooth", "20", "33", "64"], "smooth", label="smoother-sweeps-33x64")
     ctx.assumptions += ["spec-level model: the 5 000 lines of smoother C++ (assembly, right-hand sides, line solves) are tied to the sweep "
